@@ -465,6 +465,68 @@ func propC06(r *Run) {
 				r.Add("probe:concurrent-api-requests", len(exps))
 			}
 		}
+		// last phase (a third of the runs): an administrator removes every account, its own last - the
+		// API allows that. Nobody can hold a session for the emptied store, so from then on every
+		// management request is one without a valid credential: refused, nothing disclosed, nothing written
+		if ex, _ := exists("zq-root-admin"); ex && r.Choose("empty-the-store", 3) == 0 {
+			if adminTok := login("zq-root-admin", pw["zq-root-admin"]); adminTok != nil {
+				var present []string
+				for _, u := range names {
+					if ex, _ := exists(u); ex && u != "zq-root-admin" {
+						present = append(present, u)
+					}
+				}
+				present = append(present, "zq-root-admin")
+				for _, u := range present {
+					c := &Call{Kind: "remove", Via: "api", Agent: a.idx, User: u, Session: adminTok.text}
+					w.addClient([]*Call{c})
+					if wedge := w.settle(nil); wedge != "" {
+						r.FailOther("C10", wedgeSignature(wedge), "%s", wedge)
+						return
+					}
+				}
+				left := 0
+				for _, u := range names {
+					if ex, _ := exists(u); ex {
+						left++
+					}
+				}
+				if left == 0 {
+					r.Count("probe:store-emptied-through-the-api")
+					before := w.fs.Snapshot(cfg.BaseDir)
+					for i, iN := 0, 3+r.Choose("requests-on-empty-store", 6); i < iN; i++ {
+						kind := []string{"add", "add", "update", "set-admin", "remove", "list", "list-full"}[r.Choose("empty-store-endpoint", 7)]
+						c := &Call{Kind: kind, Via: "api", Agent: a.idx, User: []string{"zq-mallory", "zq-root-admin"}[r.Choose("empty-store-target", 2)], PW: "a-new-password", Admin: true}
+						switch r.Choose("empty-store-credential", 4) {
+						case 0:
+							// no credential at all
+						case 1:
+							c.Session = "garbage"
+						case 2:
+							c.Session = adminTok.text // the session of the administrator that no longer exists: not checked here (the statement speaks of the status at login), only that nothing unauthorised happens without it
+							continue
+						case 3:
+							if kind == "update" {
+								c.OldPW = pw["zq-root-admin"]
+							}
+						}
+						w.addClient([]*Call{c})
+						if wedge := w.settle(nil); wedge != "" {
+							r.FailOther("C10", wedgeSignature(wedge), "%s", wedge)
+							return
+						}
+						trace = append(trace, fmt.Sprintf("emptied store: %s -> %d", c, c.Status))
+						r.Logf("emptied store: %s -> %d", c, c.Status)
+						if c.OK {
+							r.Fail("authz/refused-class-got-2xx/"+kind+"/emptied-store", "the store has no accounts left; %s without a valid credential was answered %d: %s", c, c.Status, truncateA(c.Body, 200))
+						}
+					}
+					if d := diffNoTmp(before, w.fs.Snapshot(cfg.BaseDir)); len(d) > 0 {
+						r.Fail("authz/unauthorised-effect/emptied-store", "requests without a valid credential changed the emptied store: %v", d)
+					}
+				}
+			}
+		}
 		r.Steps += nreq
 		r.Sample(map[string]any{"requests": trace[:min(len(trace), 12)], "tokens": len(toks), "restarts": instance})
 	})
